@@ -40,7 +40,7 @@ def gen_ops(sp, rng, ng):
     na = len(sp['assets'])
     ops = []
     for _ in range(rng.randint(1, 5)):
-        k = rng.choice(['P', 'P', 'A', 'A', 'At', 'An', 'Pn', 'S', 'F', 'J'])
+        k = rng.choice(['P', 'P', 'A', 'A', 'At', 'An', 'Pn', 'S', 'F', 'J', 'Psk'])
         gi = rng.randrange(ng)
         if k in ('P', 'A'):
             ops.append({'op': k, 'k': rng.randrange(na), 'g': gi, 'p': rng.randint(0, 1)})
@@ -48,6 +48,8 @@ def gen_ops(sp, rng, ng):
             ops.append({'op': 'At', 'k': rng.randrange(na), 'g': gi})
         elif k in ('An', 'Pn'):
             ops.append({'op': k, 'k': rng.randrange(na), 'p': rng.randint(0, 1)})
+        elif k == 'Psk':
+            ops.append({'op': 'Psk', 'g': gi, 'k': rng.randint(0, 3)})
         elif k == 'S':
             ops.append({'op': 'S', 'g': gi, 'p': 0, 'size': {'h': '3h', '30min': '2h'}[sp['grid']['freq']]})
         elif k == 'F':
